@@ -13,27 +13,30 @@ fn obs_err(e: &serde_json::Error) -> String {
     else { format!("X{}", m.split(" at ").next().unwrap_or("").replace(' ', "_")) }
 }
 
-fn obs64(r: Result<f64, serde_json::Error>) -> String {
-    match r { Ok(f) => format!("B{:016x}", f.to_bits()), Err(e) => obs_err(&e) }
+fn obs64(r: std::thread::Result<Result<f64, serde_json::Error>>) -> String {
+    match r { Ok(Ok(f)) => format!("B{:016x}", f.to_bits()), Ok(Err(e)) => obs_err(&e), Err(_) => "Xpanic".into() }
 }
+fn guard<T>(f: impl FnOnce() -> T + std::panic::UnwindSafe) -> std::thread::Result<T> { std::panic::catch_unwind(f) }
 
 /// all four routes to an f64 must agree; otherwise the observation names each of them
 fn observe_f64(lit: &str) -> String {
-    let a = obs64(serde_json::from_str::<f64>(lit));
-    let b = obs64(serde_json::from_slice::<f64>(lit.as_bytes()));
-    let c = obs64(serde_json::from_reader::<_, f64>(lit.as_bytes()));
-    let d = match serde_json::from_str::<Value>(lit) {
-        Ok(v) => match v.as_f64() { Some(f) => format!("B{:016x}", f.to_bits()), None => "Xnot-a-number".into() },
-        Err(e) => obs_err(&e),
+    let a = obs64(guard(|| serde_json::from_str::<f64>(lit)));
+    let b = obs64(guard(|| serde_json::from_slice::<f64>(lit.as_bytes())));
+    let c = obs64(guard(|| serde_json::from_reader::<_, f64>(lit.as_bytes())));
+    let d = match guard(|| serde_json::from_str::<Value>(lit)) {
+        Ok(Ok(v)) => match v.as_f64() { Some(f) => format!("B{:016x}", f.to_bits()), None => "Xnot-a-number".into() },
+        Ok(Err(e)) => obs_err(&e),
+        Err(_) => "Xpanic".into(),
     };
     if a == b && b == c && c == d { a } else { format!("MIXED:str={},slice={},reader={},value={}", a, b, c, d) }
 }
 
 fn observe_f32(lit: &str) -> String {
-    let o = |r: Result<f32, serde_json::Error>| match r { Ok(f) => format!("B{:08x}", f.to_bits()), Err(e) => obs_err(&e) };
-    let a = o(serde_json::from_str::<f32>(lit));
-    let b = o(serde_json::from_slice::<f32>(lit.as_bytes()));
-    let c = o(serde_json::from_reader::<_, f32>(lit.as_bytes()));
+    let o = |r: std::thread::Result<Result<f32, serde_json::Error>>| match r {
+        Ok(Ok(f)) => format!("B{:08x}", f.to_bits()), Ok(Err(e)) => obs_err(&e), Err(_) => "Xpanic".into() };
+    let a = o(guard(|| serde_json::from_str::<f32>(lit)));
+    let b = o(guard(|| serde_json::from_slice::<f32>(lit.as_bytes())));
+    let c = o(guard(|| serde_json::from_reader::<_, f32>(lit.as_bytes())));
     if a == b && b == c { a } else { format!("MIXED:str={},slice={},reader={}", a, b, c) }
 }
 
@@ -130,7 +133,7 @@ fn emit_spellings(sink: &mut Sink, r: &mut Rng, mant: &str, exp10: i64, gen: &st
 
 pub fn run(sink: &mut Sink, thorough: bool, seed: u64) {
     let mut r = Rng::new(seed);
-    let scale = if thorough { 12 } else { 1 };
+    let scale = if thorough { 24 } else { 3 };
 
     // ---- fixed corpus
     for lit in ["0", "-0", "-0.0", "0.0", "0e5", "-0e5", "0E-5", "0.000e+0", "1", "-1", "1.0", "1e0", "1E+0", "1e-0",
@@ -168,7 +171,7 @@ pub fn run(sink: &mut Sink, thorough: bool, seed: u64) {
     }
 
     // ---- random mantissas of 1..40 digits × exponents in ±400, every spelling
-    for _ in 0..(2500 * scale) {
+    for _ in 0..(3000 * scale) {
         let n = 1 + r.below(40);
         let m = digits(&mut r, n, true);
         let e = r.below(801) as i64 - 400;
@@ -178,7 +181,7 @@ pub fn run(sink: &mut Sink, thorough: bool, seed: u64) {
     }
 
     // ---- shortest / display representations of f64 across all binary exponents
-    let per = if thorough { 24 } else { 3 };
+    let per = if thorough { 40 } else { 8 };
     for ef in 0u64..=2046 {
         for k in 0..per {
             let mant = match k { 0 => 0, 1 => (1u64 << 52) - 1, _ => r.next() & ((1u64 << 52) - 1) };
@@ -221,7 +224,7 @@ pub fn run(sink: &mut Sink, thorough: bool, seed: u64) {
             if width < m.len() { continue; }
             let pad = (width - m.len()) as u32;
             let b = base * 10u128.pow(pad);
-            let span: i64 = if thorough { 400 } else { 60 };
+            let span: i64 = if thorough { 600 } else { 120 };
             for d in -span..=span {
                 let v = b as i128 + d as i128;
                 if v <= 0 { continue; }
